@@ -26,6 +26,18 @@ CHECKS = {
         design_ref="DESIGN.md 5 C18",
         note=NOTE_COMMON + " Byte-derived 'auto' limits are replaced by explicit element limits; zero-length dimensions are not enumerated.",
     ),
+    "C34": dict(
+        text=("TLC checks exhaustively (nesting depth 2, histories of 4-5 events, every 1- and 2-item set over flat, nested, new, "
+              "hyphen/underscore-aliased and nest-under-scalar keys; ~10^6 transitions) that ConfigImpl (set.__init__/_assign/"
+              "_record/__exit__ with canonical_name folding and constructor rollback) refines Config.tla: every Exit restores "
+              "the configuration observed before the matching Enter.  TLC-emitted and simulated nestings plus seeded random "
+              "nestings over real abTEM keys (dict values, keyword form, exceptions at every depth, failing constructors) are "
+              "run on the real global abtem.config and the full flattened configuration after every event is validated by "
+              "ConfigTrace.tla."),
+        technique="TLA+ refinement check (TLC) + spec-generated nestings replayed on the real config + TLC trace validation",
+        design_ref="DESIGN.md 5 C34",
+        note=NOTE_COMMON + " LIFO nestings only; values compared by (type, repr).",
+    ),
 }
 
 NOT_APPLICABLE = {
